@@ -238,7 +238,10 @@ def run(ctx: Ctx):
         progs.append((None, src, [], "bait"))
     # the smallest programs: nothing tests the input byte, nothing is stored, nothing is called
     for src in ["parser { /./; }\n", "parser { loop { /./; } }\n", "hook h;\nparser { h(); /./; }\n", "out int e;\nparser { /./; e = 1; }\n",
-                "out str[4] s;\nparser { s += /./; }\n", "finishcode F;\nparser { /./; finish F; }\n"]:
+                "out str[4] s;\nparser { s += /./; }\n", "finishcode F;\nparser { /./; finish F; }\n",
+                # a returning action and a conditional break on one transition (the label the break skips to ends the block)
+                'out int i0;\nout str[3] s1;\nfinishcode F0;\nparser {\n "da";\n loop l1 {\n  try {\n   "\\n1"i;\n   finish F0;\n  }\n  catch (nomatch, outofspace) {\n   s1 += "b 2";\n  }\n  if i0 + \'0\' != \'b\' {\n   break;\n  }\n }\n "e"i;\n}\n',
+                'out int i0;\nhook h;\nparser {\n loop {\n  "a";\n  if i0 == 1 {\n   finish;\n  }\n  if i0 == 2 {\n   break;\n  }\n }\n "z";\n}\n']:
         progs.append((None, src, [], "tiny"))
     rows, uncovered = covering_rows(rng, n_rows, 2 if quick else 3)
     ctx.extra["covering_rows"] = len(rows)
